@@ -217,7 +217,7 @@ func JudgeC17(c *Ctx, h *History, obs []*Obs) ([]Violation, error) {
 				if len(out) == 0 {
 					add(o, "disk-error-swallowed", fmt.Sprintf("disk call #%d failed with %s (%s) but goverter exited 0", f.Call, f.Err, f.Kind))
 				}
-			} else if !strings.Contains(o.Stderr, errnoText[f.Err]) {
+			} else if want := errnoText[f.Err]; f.Kind == "write-enospc" && !strings.Contains(o.Stderr, errnoText["ENOSPC"]) || f.Kind != "write-enospc" && !strings.Contains(o.Stderr, want) {
 				add(o, "disk-error-diagnostic", fmt.Sprintf("injected %s at call #%d, exit %d, but stderr does not carry the error: %q", f.Err, f.Call, o.Exit, trunc(o.Stderr, 200)))
 			}
 		case o.Crashed:
@@ -305,6 +305,9 @@ func C17Cases(c *Ctx, rng *rand.Rand, spec *LSpec, withDisk bool, nArgv int) ([]
 	var hs []*History
 	w1 := spec.World("c17")
 	v2 := spec.Bump()
+	if rng.IntN(2) == 0 {
+		v2 = v2.Shorten() // regenerated outputs are shorter than the pre-existing ones
+	}
 	n := len(spec.Convs)
 	setup := func() Op { return genOp(&GenSpec{Setup: true, Plan: planIdentity()}) }
 	// (a) converter faults: every non-empty subset (all for n ≤ 4, sampled above)
